@@ -128,7 +128,7 @@ class JoinableStringList:
             item_str = item
         elif isinstance(item, type(self)):
             # We simply join up the items here to avoid that any line continuations are introduced
-            item_str = item.sep.join(str(i) for i in item.items)
+            item_str = item._flat()
         else:
             item_str = str(item)
 
@@ -165,6 +165,17 @@ class JoinableStringList:
                 line = new_line
 
         return line, lines
+
+    def _flat(self):
+        """
+        Join all items into a string without any line wrapping, skipping empty
+        items (and their separator) in the same way as :meth:`_to_str`.
+        """
+        parts = [item._flat() if isinstance(item, type(self)) else str(item) for item in self.items]
+        return ''.join(
+            part + (self.sep if idx + 1 < len(parts) else '')
+            for idx, part in enumerate(parts) if part != ''
+        )
 
     def _to_str(self, line='', stop_on_continuation=False):
         """
